@@ -1,0 +1,46 @@
+//go:build verif
+
+package estargz
+
+import (
+	"errors"
+	"io"
+)
+
+// Verification hook (build tag "verif" only): thin wrappers that expose unexported
+// build-time logic to the correspondence harnesses under /verif. No behaviour change.
+
+// VerifSortedEntry is the observable part of one entry returned by sortEntries.
+type VerifSortedEntry struct {
+	Name     string
+	Typeflag byte
+	Linkname string
+	UID      int
+	Size     int64
+}
+
+// VerifSortEntries runs the real sortEntries on a tar blob.
+// notFound reports whether the returned error wraps errNotFound.
+func VerifSortEntries(in io.ReaderAt, prioritized []string, allowMissing bool) (out []VerifSortedEntry, missed []string, notFound bool, err error) {
+	var mp *[]string
+	if allowMissing {
+		mp = &missed
+	}
+	es, err := sortEntries(in, prioritized, mp)
+	if err != nil {
+		return nil, missed, errors.Is(err, errNotFound), err
+	}
+	for _, e := range es {
+		out = append(out, VerifSortedEntry{
+			Name:     e.header.Name,
+			Typeflag: e.header.Typeflag,
+			Linkname: e.header.Linkname,
+			UID:      e.header.Uid,
+			Size:     e.header.Size,
+		})
+	}
+	return out, missed, false, nil
+}
+
+// VerifCleanEntryName exposes cleanEntryName.
+func VerifCleanEntryName(name string) string { return cleanEntryName(name) }
